@@ -1119,3 +1119,59 @@ def ts3b(P, C, floor=1):
     if n == 0 and not sites:
         raise core.AnalysisBroken("TS-3b: no assignment of a fresh array to aux found")
     return n
+
+
+def ts8(P, C, floor=2):
+    """TS-8: the entry count of the key store changes only together with its array."""
+    C.rule("TS-8", "clear() (and every reallocation) hands the key array back to the allocator with the current naux as its size, so naux may "
+           "change only in a function that also installs an array obtained with the matching count: a function that increments, decrements or "
+           "assigns naux stores into aux an array that comes from allocate<>() — compacting the entries in place and decrementing naux "
+           "leaves a block that was obtained for one count and is later returned with another", floor=floor)
+    n = 0
+    for f in sorted(mutators(P), key=lambda g: (g.file, g.line)):
+        if f.name == RESET_FN or f.name.startswith("~") or (f.kind == "ctor" and len(f.params) == 1 and "&&" in f.params[0]["type"]) or f.name == "operator=":
+            continue        # clear(), destructor and the move operations transfer or release the pair as a whole (TS-4)
+        changes = []
+        for i in f.walk():
+            ap = assign_parts(f, i)
+            if not ap:
+                continue
+            r = root_member(f, ap[0])
+            if not r or r[0] != "naux" or r[2] != "this" or r[1] != 0:
+                continue
+            if ap[1] is not None and f.nodes[i].get("op") == "=" and f.nodes[f.strip(ap[1])].get("cv") == 0:
+                continue    # naux = 0 next to aux = NULL: no array
+            changes.append(i)
+        if not changes:
+            continue
+        # arrays installed into aux that come from allocate (directly or through a local initialised / assigned from allocate)
+        from_alloc = set()
+        for i in f.walk():
+            if f.k(i) == "DeclStmt":
+                for d in f.nodes[i]["decls"]:
+                    if d.get("init", -1) >= 0 and any((f.nodes[y].get("callee") or {}).get("name") == "allocate" for y in f.walk(d["init"])):
+                        from_alloc.add(d["id"])
+        for i in f.walk():
+            ap = assign_parts(f, i)
+            if ap and ap[1] is not None and f.k(f.strip(ap[0])) == "DeclRefExpr" and f.nodes[f.strip(ap[0])]["decl"].get("kind") == "Var" and \
+                    any((f.nodes[y].get("callee") or {}).get("name") == "allocate" for y in f.walk(ap[1])):
+                from_alloc.add(f.nodes[f.strip(ap[0])]["decl"]["id"])
+        installs = []
+        for i in f.walk():
+            ap = assign_parts(f, i)
+            if not ap or ap[1] is None:
+                continue
+            r = root_member(f, ap[0])
+            if r and r[0] == "aux" and r[1] == 0 and r[2] == "this":
+                src = f.strip(ap[1])
+                if any((f.nodes[y].get("callee") or {}).get("name") == "allocate" for y in f.walk(src)) or \
+                        (f.k(src) == "DeclRefExpr" and f.nodes[src]["decl"].get("id") in from_alloc):
+                    installs.append(i)
+        n += 1
+        C.ob("TS-8", fshort(f), "naux-changes-with-aux", bool(installs), f.loc(changes[0]),
+             "%d change(s) of naux, together with an array from allocate installed into aux" % len(changes) if installs else
+             "naux is changed at %s but no newly allocated array is installed into aux: the block that holds the entries was obtained for the old "
+             "count and will be handed back with the new one" % f.loc(changes[0]))
+    if n == 0:
+        raise core.AnalysisBroken("TS-8: no function changes naux")
+    return n
